@@ -95,8 +95,57 @@ def run(v, cases, binary, combos_for=None, sample_n=8):
         v.violation(cc, sym, detail)
     acc = [(cases[i], m, r["bytes"]) for (i, m), r in zip(back, res) if "bytes" in r and r.get("rc") == 0 and r["bytes"]]
     mode_ok = mode_crossing(v, binary, acc)
+    ctx_ok = context_crossing(v, binary, acc)
     return {"lines_assembled": len(items), "held": held, "distinct_encodings_decoded": len(encs),
-            "reference_validated_cases": sum(ok), "cases": len(cases), "mode_crossing_checks_ok": mode_ok}
+            "reference_validated_cases": sum(ok), "cases": len(cases), "mode_crossing_checks_ok": mode_ok, "context_crossing_checks_ok": ctx_ok}
+
+
+def context_crossing(v, binary, acc):
+    """acc as for mode_crossing. Every line above was assembled ALONE, unterminated, at offset 0 of a fresh caller buffer filled with
+    0xCC. What was held constant there varies here, for a sample of the accepted lines: (a) a library-managed buffer at a far offset,
+    the line terminated by LF; (b) a zero-filled caller buffer, the line second in a CRLF program; (c) a 0xFF-filled buffer in front
+    of a guard page, the same text assembled twice in a row on one instance (the second copy is compared); (d) the line indented with
+    a tab and followed by blanks and a comment, after a label line. The instruction bytes must be those of the line alone."""
+    import random as _random
+    rs = _random.Random(common.SEED * 11 + len(acc))
+    n = 1200 if v.tier != "thorough" else 20000
+    pick = rs.sample(acc, min(len(acc), n))
+    ccases, cmeta = [], []
+    for (case, m, b) in pick:
+        t = case["text"]
+        L = len(b) // 2
+        opts = ["opt 0 mov %s" % m[0], "opt 0 swap %s" % m[1], "opt 0 nobase %s" % m[2]]
+        far = rs.choice([70001, 6019, 131072, 5])
+        variants = {
+            "a": (["new 0 int"] + opts + ["setoff 0 %d" % far, "asm 0 %s" % common.hx(t + "\n"), "getoff 0", "dump 0 %d %d" % (far, far + L)], far + L),
+            "b": (["new 0 ext 256 H 0x00"] + opts + ["asm 0 %s" % common.hx("nop\r\n" + t + "\r\n"), "getoff 0", "dump 0 1 %d" % (1 + L)], 1 + L),
+            "c": (["new 0 ext 4096 R 0xff"] + opts + ["asm 0 %s" % common.hx(t), "asm 0 %s" % common.hx(t), "getoff 0", "dump 0 %d %d" % (L, 2 * L)], 2 * L),
+            "d": (["new 0 ext 256 H 0xcc"] + opts + ["asm 0 %s" % common.hx("lbl_1:\n\t" + t + "  \t; " + t + "\n"), "getoff 0", "dump 0 0 %d" % L], L),
+        }
+        for k in rs.sample(sorted(variants), 2):
+            cmds, end = variants[k]
+            ccases.append(cmds)
+            cmeta.append((case, m, b, k, end))
+    cres = common.run_cases(binary, ccases, tag=v.prop.lower() + "x")
+    ok = 0
+    for (case, m, b, k, end), cmds, r in zip(cmeta, ccases, cres):
+        v.count()
+        cc = {kk: x for kk, x in case.items() if kk not in ("exp", "alt", "nasm")}
+        cc.update({"key": "%s [%s] context %s" % (case["text"], m, k), "combo": m, "fam": "context_" + k, "ofam": case.get("fam"), "script": cmds})
+        if r["crash"]:
+            v.violation(cc, r["crash"]["sig"], r["crash"]["stderr"][-800:])
+            continue
+        recs = r["records"]
+        a = recs[-3].split()
+        off = recs[-2].split()[1]
+        d = recs[-1].split()[1]
+        if a[1] != "0":
+            v.violation(cc, "context-%s:rejected" % k, " ".join(a))
+        elif int(off) != end or d != b:
+            v.violation(cc, "context-%s:bytes-differ-from-the-line-alone" % k, "offset %s (want %d) bytes %s want %s" % (off, end, d, b))
+        else:
+            ok += 1
+    return ok
 
 
 def mode_crossing(v, binary, acc):
